@@ -250,7 +250,8 @@ impl Engine for CapEngine {
             } else {
                 let need = t.q.capacity().saturating_sub(t.q.len()) + m_amount;
                 crate::alloc::begin(None, false);
-                let _ = if exact { t.q.try_reserve_exact(need) } else { t.q.try_reserve(need) };
+                // (guarded: a panic of the crate here must surface through the ordinary cases below)
+                let _ = guarded(|| if exact { t.q.try_reserve_exact(need).is_ok() } else { t.q.try_reserve(need).is_ok() });
                 let (seen, _) = crate::alloc::end();
                 acc.bump("counters", &format!("allocations_per_try_reserve_{}", seen.min(6)), 1);
                 // remember the amount that forces growth
